@@ -7,6 +7,21 @@ COMMON_TRUSTED = [
     'extraction: ExtrOcamlBasic only (bool, option, unit, list, prod, sumbool, sumor, andb, orb); Z/positive kept as extracted inductives; ocaml/driver.ml text protocol',
     'harness: tools/hz.py (version injection via pkg_resources wrapper, counting file), tools/corr_reads.py',
 ]
+import os as _os
+def pins_of(pid):
+    """pins listed in tools/pinlist.txt under the comment section starting with '# <pid> '"""
+    out, cur = [], None
+    for line in open(_os.path.join(_os.path.dirname(_os.path.abspath(__file__)), 'pinlist.txt')):
+        line = line.strip()
+        if line.startswith('#'):
+            cur = line[1:].split()[0] if len(line) > 1 and line[1:].split() else None
+            continue
+        if line and cur == pid:
+            m, q = line.split()
+            if f'{m}.{q}' not in out:
+                out.append(f'{m}.{q}')
+    return out
+
 READER_TARGETS = ['Reader', 'read.SgzReader', 'loader.SgzLoader', 'Utils', 'Version']
 READER_PINS = ['loader.SgzLoader._get_compressed_bytes', 'loader.SgzLoader._decompress',
                'loader.SgzLoader._decompress_into_array', 'loader.SgzLoader.load_compressed_volume',
@@ -40,4 +55,27 @@ PROPS = {
                 assumptions=['SHA-1 abstract (Section variable H): sensitivity holds up to a collision of H',
                              'samples compared as float32 bit patterns',
                              'irregular sources with holes: the stored hash is that of the zero-filled grid (recorded as a note; outside the property quantifier "cubes and 2D sections")']),
+    'C09': dict(gen_targets=['Producer2d', 'Reader', 'Utils', 'Version'],
+                pins=READER_PINS + ['conversion_utils.compressor', 'conversion_utils.writer', 'conversion_utils.run_conversion_loop',
+                                    'conversion_utils.make_header_seismic_file', 'utils.Geometry2d.__init__',
+                                    'accessors.TraceAccessor.__init__', 'accessors.HeaderAccessor.__init__', 'read.SgzReader.gen_trace_header'],
+                harness='twod.py',
+                trusted=['tools/genx_producer2d.py (fail-closed extraction of seismic_file_producer_2d, io_thread_func_2d, the 2D branch of make_header, detect_geometry)',
+                         'hand model coq/Model/Producer2d.v: slice assignment of one buffer row, negative indexing, unit-wise C-order 2-D compression (validated per case)'],
+                assumptions=['queue order (C16)', 'sample axis and header contents are C05/C04; here only the store index t -> t is proved',
+                             'rates below 1 bit are refused for 2D (D13 fix); checked in a child process',
+                             'get_trace(i, lo, hi) ignores the sample window on 2D files (noted, outside the C09 statement)']),
+    'C13': dict(gen_targets=['Accessors', 'Reader'],
+                pins=['utils.coord_to_index', 'read.SgzReader.get_inline_index', 'read.SgzReader.read_inline_number',
+                      'read.SgzReader.get_crossline_index', 'read.SgzReader.read_crossline_number', 'read.SgzReader.get_file_text_header',
+                      'read.SgzReader.get_file_binary_header', 'tools.dt', 'tools.cube', 'open.open'],
+                harness='emulation.py',
+                trusted=['tools/genx_accessors.py (fail-closed translation of accessors.py and the emulator wiring)',
+                         'hand model of segyio (sanitize_slice, Line.ranges, wrapindex, Sequence slices) in coq/Model/Accessors.v: validated against segyio on every run (thousands of slices), not proved'],
+                assumptions=['values behind a key are C02/C04; here structure, key lists, order, rejection', 'axes with negative line numbers excluded (segyio itself is Python-style there)']),
+    'C08': dict(gen_targets=['Irregular', 'Reader', 'Utils', 'Version'], pins=pins_of('C08'), harness='irregular.py',
+                trusted=['tools/genx_irregular.py (fail-closed extraction of InferredGeometry3d.get_range, unstructured_io_thread_func indices, make_header unstructured fields, the mask expressions)',
+                         'hand model of segyio geometry inference (segyio_geometry) compared with real segyio on every sample'],
+                assumptions=['bitwise equality of volume-style reads with the codec image of the zero-filled grid rests on the oracle plus C01/C02 (theorems stop at what each buffer cell holds)',
+                             'heuristic detection: fields equal in first and last trace are stored as constants (documented limitation, C04)']),
 }
